@@ -32,10 +32,15 @@ static void* vf_keepreg;
 /* the last seven hold their references in containers whose key, value or element type is NOT a plain Ref: a 4-byte tag on the
 ** other side of a key/value pair (a side smaller than a pointer), or a plain struct stored inline whose fields are the references */
 enum { K_PLAIN, K_REF, K_BOX, K_ARRAY, K_LIST, K_TABLE, K_TREE, K_TUPLE,
-       K_TREE_SK, K_TREE_SV, K_TABLE_SK, K_TABLE_SV, K_ARRAY_P, K_LIST_P, K_TREE_P, K_N };
-static const char KLET[] = "prbaltTuSVHhALP";
+       K_TREE_SK, K_TREE_SV, K_TABLE_SK, K_TABLE_SV, K_ARRAY_P, K_LIST_P, K_TREE_P,
+       /* constructed with Int element/key/value types and then given, by assign(), the contents of a container of Refs:
+       ** whatever the container decided about itself at construction must not survive the change of its types */
+       K_ARRAY_CV, K_LIST_CV, K_TABLE_CV, K_TREE_CV, K_N };
+static const char KLET[] = "prbaltTuSVHhALPQqCc";
 static const char* KNAME[] = { "plain", "Ref", "Box", "Array", "List", "Table", "Tree", "Tuple",
-  "Tree<tag4,Ref>", "Tree<Ref,tag4>", "Table<tag4,Ref>", "Table<Ref,tag4>", "Array<struct>", "List<struct>", "Tree<Int,struct>" };
+  "Tree<tag4,Ref>", "Tree<Ref,tag4>", "Table<tag4,Ref>", "Table<Ref,tag4>", "Array<struct>", "List<struct>", "Tree<Int,struct>",
+  "Array<Int>:=Array<Ref>", "List<Int>:=List<Ref>", "Table<Int,Int>:=Table<Ref,Ref>", "Tree<Int,Int>:=Tree<Ref,Ref>" };
+static int base_kind(int k) { return k == K_ARRAY_CV ? K_ARRAY : k == K_LIST_CV ? K_LIST : k == K_TABLE_CV ? K_TABLE : k == K_TREE_CV ? K_TREE : k; }
 enum { R_NONE, R_STACK, R_NEWROOT, R_ROOTREF, R_TLS, R_REG, R_N };
 static const char RLET[] = "-snrtg";
 static const char* RNAME[] = { "none", "stack", "new_root", "root-Ref-holder", "thread-local", "callee-saved-register" };
@@ -124,6 +129,10 @@ static var alloc_node(int kind, int as_root) {
   case K_ARRAY_P:  return as_root ? (var)new_root(Array, Plain) : (var)new(Array, Plain);
   case K_LIST_P:   return as_root ? (var)new_root(List, Plain) : (var)new(List, Plain);
   case K_TREE_P:   return as_root ? (var)new_root(Tree, Int, Plain) : (var)new(Tree, Int, Plain);
+  case K_ARRAY_CV: { var c = as_root ? (var)new_root(Array, Int) : (var)new(Array, Int); push(c, $I(1)); return c; }
+  case K_LIST_CV:  { var c = as_root ? (var)new_root(List, Int) : (var)new(List, Int); push(c, $I(1)); return c; }
+  case K_TABLE_CV: { var c = as_root ? (var)new_root(Table, Int, Int) : (var)new(Table, Int, Int); set(c, $I(1), $I(2)); return c; }
+  case K_TREE_CV:  { var c = as_root ? (var)new_root(Tree, Int, Int) : (var)new(Tree, Int, Int); set(c, $I(1), $I(2)); return c; }
   }
   return NULL;
 }
@@ -151,6 +160,14 @@ static void __attribute__((noinline)) build(struct shape* s) {
     case K_TREE_SV: case K_TABLE_SV: for (int k = 0; k < d; k++) set(N[i], $R(N[t[k]]), TAG(k)); break;
     case K_ARRAY_P: case K_LIST_P: for (int k = 0; k < d; k += 2) push(N[i], $(Plain, N[t[k]], k + 1 < d ? N[t[k + 1]] : NULL, CANARY)); break;
     case K_TREE_P: for (int k = 0; k < d; k += 2) set(N[i], $I(k), $(Plain, N[t[k]], k + 1 < d ? N[t[k + 1]] : NULL, CANARY)); break;
+    case K_ARRAY_CV: case K_LIST_CV: {
+      volatile var tmp = s->kind[i] == K_ARRAY_CV ? (var)new(Array, Ref) : (var)new(List, Ref);
+      for (int k = 0; k < d; k++) push((var)tmp, $R(N[t[k]]));
+      assign(N[i], (var)tmp); tmp = NULL; break; }
+    case K_TABLE_CV: case K_TREE_CV: {
+      volatile var tmp = s->kind[i] == K_TABLE_CV ? (var)new(Table, Ref, Ref) : (var)new(Tree, Ref, Ref);
+      for (int k = 0; k < d; k += 2) set((var)tmp, $R(N[t[k]]), $R(k + 1 < d ? N[t[k + 1]] : NULL));
+      assign(N[i], (var)tmp); tmp = NULL; break; }
     }
   }
   for (int i = 0; i < s->n; i++) {
@@ -180,7 +197,7 @@ static void __attribute__((noinline)) do_collect(void) {
 static const char* verify_node(struct shape* s, int i) {
   int t[MAXN]; int d = targets(s, i, t);
   var x = N[i];
-  switch (s->kind[i]) {
+  switch (base_kind(s->kind[i])) {
   case K_PLAIN: { struct Plain* p = x;
     if (p->canary != CANARY) return "contents-corrupted";
     if (type_of(x) != Plain) return "type-changed";
